@@ -44,6 +44,7 @@ inductive Clause
   | existence | inDowntimeIff | depthEqCount | triggerWriteOnce | triggerOnlyInWindow
   | flexibleTrigger | triggerCascade | startOnce | startedWhenTriggered | fixedStartedInWindow
   | endOnce | endHasStart | removedEvent | expiredRemoved | ownerProtected | droppedResult
+  | fixedStartedWhenTriggered | fixedEndHasStart
   deriving Repr, DecidableEq
 
 def Clause.name : Clause → String
@@ -63,6 +64,8 @@ def Clause.name : Clause → String
   | .expiredRemoved => "expired_removed"
   | .ownerProtected => "owner_protected"
   | .droppedResult => "dropped_result_changes_nothing"
+  | .fixedStartedWhenTriggered => "fixed_started_when_triggered"
+  | .fixedEndHasStart => "fixed_end_has_start"
 
 def evCount (o : Obs) (ev id : Nat) : Nat :=
   ((o.evs.filter (fun e => e.1 == ev && e.2.1 == id)).map (·.2.2)).sum
@@ -216,9 +219,13 @@ def chkCascade (sp : SpecSt) (op : Op) (o : Obs) : Bool :=
 /-- One DowntimeStart per downtime … -/
 def chkStartOnce (sp : SpecSt) (op : Op) (o : Obs) : Bool := (postDts sp op o).all (fun d => d.starts ≤ 1)
 
-/-- … present once it has taken effect. -/
+/-- … present once it has taken effect: a flexible downtime … -/
 def chkStarted (sp : SpecSt) (op : Op) (o : Obs) : Bool :=
-  (postDts sp op o).all (fun d => !(d.alive && d.trig != 0 && !d.excused) || d.starts ≥ 1)
+  (postDts sp op o).all (fun d => !(d.alive && !d.fixed && d.trig != 0 && !d.excused) || d.starts ≥ 1)
+
+/-- … and a fixed one (false of the code when the fixed downtime is reached by `TriggerDowntime`: F-C05c). -/
+def chkStartedFixed (sp : SpecSt) (op : Op) (o : Obs) : Bool :=
+  (postDts sp op o).all (fun d => !(d.alive && d.fixed && d.trig != 0 && !d.excused) || d.starts ≥ 1)
 
 /-- A fixed downtime inside its window has taken effect once the start timer has fired or it has just
     been created (that it then has requested DowntimeStart is the previous clause). -/
@@ -234,8 +241,13 @@ def chkEndOnce (sp : SpecSt) (op : Op) (o : Obs) : Bool :=
     (!(gone o a && decide (0 < a.trig) && decide (a.trig ≤ op.now)) || evCount o 2 a.id == (if sp.paused then 0 else 1)) &&
     (!(gone o a && a.trig == 0 && evCount o 3 a.id == 0) || evCount o 2 a.id == 0))
 
+/-- No DowntimeEnd without the DowntimeStart before it: flexible downtimes … -/
 def chkEndHasStart (sp : SpecSt) (op : Op) (o : Obs) : Bool :=
-  (postDts sp op o).all (fun d => !(evCount o 2 d.id > 0 && !d.excused) || d.starts ≥ 1)
+  (postDts sp op o).all (fun d => !(evCount o 2 d.id > 0 && !d.fixed && !d.excused) || d.starts ≥ 1)
+
+/-- … and fixed ones (F-C05c). -/
+def chkEndHasStartFixed (sp : SpecSt) (op : Op) (o : Obs) : Bool :=
+  (postDts sp op o).all (fun d => !(evCount o 2 d.id > 0 && d.fixed && !d.excused) || d.starts ≥ 1)
 
 def chkRemovedEvent (sp : SpecSt) (op : Op) (o : Obs) : Bool :=
   (preDts sp op o).all (fun a => evCount o 4 a.id == (if gone o a then 1 else 0))
@@ -266,9 +278,11 @@ def specChecks (sp : SpecSt) (op : Op) (o : Obs) : List (Bool × Clause) :=
     (chkCascade sp op o, .triggerCascade),
     (chkStartOnce sp op o, .startOnce),
     (chkStarted sp op o, .startedWhenTriggered),
+    (chkStartedFixed sp op o, .fixedStartedWhenTriggered),
     (chkFixedStarted sp op o, .fixedStartedInWindow),
     (chkEndOnce sp op o, .endOnce),
     (chkEndHasStart sp op o, .endHasStart),
+    (chkEndHasStartFixed sp op o, .fixedEndHasStart),
     (chkRemovedEvent sp op o, .removedEvent),
     (chkExpired sp op o, .expiredRemoved),
     (chkOwner sp op o, .ownerProtected) ]
